@@ -199,44 +199,39 @@ def _f_vararg_annotation(c):
 
 
 def _f_paren_with(c):
+    """`with ( ... ):` where the parenthesis encloses the whole item list (token-based)."""
+    tk = [t for t in c.toks if t.type not in (tokenize.NL, tokenize.COMMENT, tokenize.NEWLINE, tokenize.INDENT, tokenize.DEDENT)]
     for n in c.nodes(ast.With, ast.AsyncWith):
-        # source between `with` and the first item starts with '(' that closes right before ':'
-        first = n.items[0].context_expr
-        head = c.src[_offset(c.src, n.lineno, n.col_offset):_offset(c.src, first.lineno, first.col_offset)]
-        if "(" not in head:
-            continue
-        seg = c.seg(n)
-        m = re.match(r"(async\s+)?with\s*\(", seg)
-        if not m:
-            continue
-        # find the matching close paren
-        depth, i = 0, m.end() - 1
-        j = None
-        in_s = None
-        while i < len(seg):
-            ch = seg[i]
-            if in_s:
-                if ch == "\\":
-                    i += 1
-                elif ch == in_s:
-                    in_s = None
-            elif ch in "\"'":
-                in_s = ch
-            elif ch in "([{":
-                depth += 1
-            elif ch in ")]}":
-                depth -= 1
-                if depth == 0:
-                    j = i
+        start = c.charpos(n.lineno, n.col_offset)
+        for i, t in enumerate(tk):
+            if t.start < start:
+                continue
+            # t is `with` (or `async` then `with`)
+            j = i
+            if tk[j].string == "async" and j + 1 < len(tk):
+                j += 1
+            if tk[j].string != "with" or j + 1 >= len(tk):
+                break
+            op = tk[j + 1]
+            if not (op.type == tokenize.OP and op.string == "("):
+                break
+            close_end = c.paren_match.get(op.start)
+            if close_end is None:
+                break
+            # token after the matching close paren must be ':'
+            after = None
+            last_inner = None
+            for k in range(j + 2, len(tk)):
+                if tk[k].end == close_end:
+                    after = tk[k + 1] if k + 1 < len(tk) else None
+                    last_inner = tk[k - 1]
                     break
-            i += 1
-        if j is None:
-            continue
-        rest = seg[j + 1:].lstrip()
-        if rest.startswith(":"):
-            inner = seg[m.end():j]
-            if len(n.items) > 1 or any(it.optional_vars is not None for it in n.items) or inner.rstrip().endswith(","):
+            if after is None or not (after.type == tokenize.OP and after.string == ":"):
+                break
+            if len(n.items) > 1 or any(it.optional_vars is not None for it in n.items) \
+                    or (last_inner is not None and last_inner.type == tokenize.OP and last_inner.string == ","):
                 return True
+            break
     return False
 
 
@@ -324,8 +319,22 @@ def _f_star_arg_lowprec(c):
 
 
 def _parenthesised(c, node):
-    off = _offset(c.src, node.lineno, node.col_offset)
-    return c.src[:off].rstrip().endswith("(") and c.src[_offset(c.src, node.end_lineno, node.end_col_offset):].lstrip().startswith(")")
+    """The node is directly wrapped in its own parentheses (token-based, so comments, blanks and
+    backslash continuations between the parenthesis and the node do not matter)."""
+    start = c.charpos(node.lineno, node.col_offset)
+    end = c.charpos(node.end_lineno, node.end_col_offset)
+    tk = [t for t in c.toks if t.type not in (tokenize.NL, tokenize.COMMENT, tokenize.NEWLINE, tokenize.INDENT, tokenize.DEDENT)]
+    prev = nxt = None
+    for i, t in enumerate(tk):
+        if t.start >= start and prev is None:
+            prev = tk[i - 1] if i > 0 else False
+        if t.start >= end:
+            nxt = t
+            break
+    if not prev or nxt is None:
+        return False
+    return prev.type == tokenize.OP and prev.string == "(" and nxt.type == tokenize.OP and nxt.string == ")" \
+        and c.paren_match.get(prev.start) == nxt.end
 
 
 def _f_subscript_1tuple(c):
@@ -502,7 +511,7 @@ def _f_match_walrus_subject(c):
 
 def _f_number_keyword(c):
     # `and` / `or` touching a neighbouring token: 1or 2, (a)or b, a or(b), a or-b
-    tk = [t for t in c.toks if t.type not in (tokenize.NL, tokenize.COMMENT)]
+    tk = [t for t in c.toks if t.type != tokenize.NL]
     for i, t in enumerate(tk):
         if t.type == tokenize.NAME and t.string in ("or", "and"):
             if i > 0 and tk[i - 1].end == t.start:
